@@ -53,6 +53,8 @@ TProbe == \* the group's public endpoint accepts connections iff the specificati
      \cup (IF E.open = (\E o \in Objs : open[o]) THEN {} ELSE {<<"endpoint reachability differs from the specification", l>>})
      \cup (IF "ports_held" \notin DOMAIN E \/ E.ports_held = Cardinality({o \in Objs : open[o]}) THEN {}
           ELSE {<<"port accounting differs from the open groups (a closed group still holds its port, or an open one holds none)", l>>})
+     \cup (IF "reported" \notin DOMAIN E \/ ~E.open \/ E.reported = 0 \/ (Len(E.open_ports) = 1 /\ E.open_ports[1] = E.reported) THEN {}
+          ELSE {<<"the remote address reported to the members is not the (only) port on which the group accepts", l>>})
 TServed == \* a connection / request was handed to a member: it must be a current member of the served object
   /\ Ev("drv.group.served") /\ UNCHANGED vars
   /\ Flag(IF E.member = "none" THEN \A o \in Objs : ~(open[o] /\ ~chClosed[o] /\ table = o /\ mem[o] # {})
@@ -63,7 +65,10 @@ TRotation == /\ Ev("drv.group.rotation") /\ UNCHANGED vars
 TResp == /\ Ev("drv.group.resp") /\ UNCHANGED vars
          /\ Flag((E.errc = "none") = (op[E.pxy].pc = "joined"), "NewProxyResp differs from the specification's membership")
 
-TNext == TReset \/ TLookup \/ TJoin \/ TJoinEnv \/ TLeave \/ TProbe \/ TServed \/ TResp \/ TRotation
+\* a group that asks again for a server-chosen port while its previous one is free gets it back (FrpsPorts!PrevPortBack, for groups)
+TPrevPort == /\ Ev("drv.group.prevport") /\ UNCHANGED vars
+             /\ Flag(E.first = E.second, "group on a server-chosen port did not get its previous, still free, port back")
+TNext == TPrevPort \/ TReset \/ TLookup \/ TJoin \/ TJoinEnv \/ TLeave \/ TProbe \/ TServed \/ TResp \/ TRotation
          \/ Stutter({"group.handoff", "group.leave.notfound", "drv.note", "ctl.newproxy.begin", "ctl.newproxy.end", "ctl.closeproxy.begin",
                      "ctl.closeproxy.end", "ctl.teardown.proxy.begin", "ctl.teardown.proxy", "ctl.teardown.poolclosed", "ctl.teardown.done"})
 TSpec == TInit /\ [][TNext]_tvars
